@@ -78,9 +78,10 @@ def build(job, pool=None):
     if os.path.exists(exe + ".ok"):
         return exe
     # prune stale builds of the same job
-    for old in glob.glob(os.path.join(BUILD_ROOT, "%s-%s-*" % (name, job["flavour"]))):
-        if old != d:
-            shutil.rmtree(old, ignore_errors=True)
+    olds = [o for o in glob.glob(os.path.join(BUILD_ROOT, "%s-%s-*" % (name, job["flavour"]))) if o != d]
+    olds.sort(key=lambda o: os.path.getmtime(o), reverse=True)
+    for old in olds[2:]:   # keep the two most recent other builds (seeded-change runs alternate between two trees)
+        shutil.rmtree(old, ignore_errors=True)
     os.makedirs(d, exist_ok=True)
     inc = ["-I" + os.path.join(REPO, "include"), "-isystem", EIGEN, "-I" + os.path.join(VERIF, "harness")]
     objs, cmds = [], []
